@@ -116,6 +116,7 @@ class Run:
         self.budget_s = budget_s or float(os.environ.get("VERIF_BUDGET_S", default_budget))
         self.evaluations = 0
         self.nontrivial_keys: set = set()
+        self.nt_batched = 0  # distinct non-trivial cases counted inside batched work units ("nt_n")
         self.cnt: Counter = Counter()
         self.states = 0
         self.transitions = 0
@@ -186,7 +187,9 @@ class Run:
         if "harness_error" in r:
             self.harness_errors.append({"layer": layer, "case": r["_case"], "error": r["harness_error"]})
             return
-        if r.get("nt"):
+        if "nt_n" in r:
+            self.nt_batched += int(r["nt_n"])
+        elif r.get("nt"):
             self.nontrivial_keys.add(r.get("key") or hashlib.md5(cjson(r["_case"]).encode()).hexdigest())
         for k, v in (r.get("cnt") or {}).items():
             self.cnt[k] += v
@@ -245,7 +248,7 @@ class Run:
                 lines.append(f"HARNESS-ERROR property={self.pid} layer={he['layer']} case={cjson(he['case'])[:300]}\n{he['error']}")
         cov = {
             "evaluations": self.evaluations,
-            "distinct_nontrivial": len(self.nontrivial_keys),
+            "distinct_nontrivial": len(self.nontrivial_keys) + self.nt_batched,
             "rule": self.rule,
             "samples": self.samples[:8] or [{"note": "no sample recorded"}],
             "exhaustive": exhaustive,
@@ -278,7 +281,7 @@ class Run:
             rc = 2 if rc == 0 else rc
         lines.append(
             f"[{self.pid}] tier={self.tier} seed={self.seed} evaluations={self.evaluations} "
-            f"nontrivial={len(self.nontrivial_keys)} exhaustive={exhaustive} "
+            f"nontrivial={len(self.nontrivial_keys) + self.nt_batched} exhaustive={exhaustive} "
             + (f"states={self.states} transitions={self.transitions} " if self.level == "model_checking" else "")
             + f"violation_classes={len(self.viol)} known_seen={len(self.known_seen)} wall={wall:.1f}s rc={rc}")
         sys.__stdout__.write("\n".join(lines) + "\n")
